@@ -34,6 +34,7 @@ Fixpoint squeeze (s : string) : string :=
     then squeeze r else String c (squeeze r)
   end.
 Definition nl : string := String (ascii_of_nat 10) "".
+Definition sep_out : string := " ;; ".
 Definition proj_param (p : param_d) : string :=
   "p " ++ pd_name p ++ " " ++
   squeeze (if pd_variadic p then "..." ++ drop_str 2 (pd_type p) else pd_type p) ++ nl.
@@ -89,5 +90,19 @@ Definition families (c : l2case) : list string :=
    | _ => []
    end)%list.
 
+(* on a structural disagreement the model's projection is handed back for attribution *)
+Fixpoint nl_to_sep (s : string) : string :=
+  match s with
+  | EmptyString => EmptyString
+  | String c r => if Ascii.eqb c (ascii_of_nat 10) then sep_out ++ nl_to_sep r else String c (nl_to_sep r)
+  end.
+Definition model_proj (c : l2case) : string :=
+  match mock_run (lc_input c) (lc_cfg c) (lc_args c) with
+  | Ok d => nl_to_sep (proj_data d)
+  | _ => ""
+  end.
+
 Definition verdicts (cs : list l2case) : list (string * string) :=
-  map (fun c => (lc_id c, verdict c ++ "|" ++ join "," (families c))) cs.
+  map (fun c => let v := verdict c in
+                (lc_id c, v ++ "|" ++ join "," (families c) ++
+                          (if String.eqb v "DIFF-structure" then "|" ++ model_proj c else ""))) cs.
